@@ -20,6 +20,8 @@ type Gen struct {
 	noAt      bool
 	rangeSec  bool // only whole-second ranges
 
+	nanRate float64
+
 	// per-case context
 	lookback int64
 	step     int64
@@ -30,9 +32,10 @@ func NewGen(seed int64, prof string) *Gen {
 	return g
 }
 
-func (g *Gen) pick(xs ...string) string { return xs[g.r.Intn(len(xs))] }
-func (g *Gen) chance(p float64) bool    { return g.r.Float64() < p }
-func (g *Gen) pickI(xs ...int64) int64  { return xs[g.r.Intn(len(xs))] }
+func (g *Gen) pick(xs ...string) string    { return xs[g.r.Intn(len(xs))] }
+func (g *Gen) chance(p float64) bool       { return g.r.Float64() < p }
+func (g *Gen) pickI(xs ...int64) int64     { return xs[g.r.Intn(len(xs))] }
+func (g *Gen) pickF(xs ...float64) float64 { return xs[g.r.Intn(len(xs))] }
 
 var metricNames = []string{"m", "n"}
 var labelNames = []string{"a", "b", "c"}
@@ -329,9 +332,14 @@ func (g *Gen) twins(c *Case) (string, string) {
 		}
 		return x
 	}
-	k := g.r.Intn(5)
-	if k == 4 {
+	k := g.r.Intn(6)
+	if k >= 4 {
 		// one twin is narrower (select merging applies), possibly with an offset
+		if k == 5 {
+			// a filter over the whole metric, read at the same time as its base
+			core = g.metric()
+			b = a
+		}
 		extra := g.matcher()
 		narrow := core
 		if strings.HasSuffix(core, "}") {
@@ -457,6 +465,9 @@ func (g *Gen) vectorExpr(c *Case, d int) string {
 // data
 
 func (g *Gen) value(counter bool, prev float64) float64 {
+	if g.nanRate > 0 && g.chance(g.nanRate) {
+		return math.NaN()
+	}
 	if counter {
 		if g.chance(0.06) {
 			return float64(g.r.Intn(5)) // reset
@@ -574,6 +585,12 @@ func (g *Gen) dataset(c *Case, ranges []int64, withHist bool) {
 	if withHist {
 		groups := 1 + g.r.Intn(2)
 		twoHist := g.chance(0.3)
+		sameA := g.chance(0.5)
+		if strings.Contains(c.Query, "._bucket") {
+			// a selector over both bucket metrics: make them collide after the name is dropped
+			twoHist = g.chance(0.85)
+			sameA = g.chance(0.8)
+		}
 		if twoHist {
 			groups = 2
 		}
@@ -595,7 +612,11 @@ func (g *Gen) dataset(c *Case, ranges []int64, withHist bool) {
 				if gi == 1 && twoHist {
 					hname = "g_bucket"
 				}
-				ls := [][2]string{{"__name__", hname}, {"a", labelValues[gi%2]}, {"le", b}}
+				av := labelValues[gi%2]
+				if twoHist && sameA {
+					av = labelValues[0]
+				}
+				ls := [][2]string{{"__name__", hname}, {"a", av}, {"le", b}}
 				s := SeriesJ{Labels: ls}
 				for k, t := range ts {
 					cum[k] += float64(g.r.Intn(5)) * float64(k+1)
@@ -703,6 +724,16 @@ func (g *Gen) Case(i int) *Case {
 		c.Query = g.rangeFn(c)
 	case "agg":
 		c.Query = g.aggExpr(c, 1+g.r.Intn(2))
+	case "kagg":
+		// k-selection over large groups with NaN values: the answer must not depend on the
+		// order in which the samples of a step arrive
+		grp := g.pick("", "", "by (a) ", "without (b, c) ", "by () ")
+		inner := g.selectorCore("m")
+		if g.chance(0.3) {
+			inner = g.pick("abs", "ceil", "-", "+") + "(" + inner + ")"
+		}
+		c.Query = fmt.Sprintf("%s %s(%d, %s)", g.pick("topk", "bottomk"), grp, g.pickI(2, 2, 3, 4), inner)
+		g.maxSeries = 24
 	case "binary":
 		c.Query = g.binExpr(c, 1+g.r.Intn(2))
 		if g.chance(0.08) {
@@ -711,6 +742,7 @@ func (g *Gen) Case(i int) *Case {
 		}
 	case "twins":
 		x, y := g.twins(c)
+		g.maxSeries = 40 // several series per shard
 		op := g.pick("+", "-", "/", "*", "> bool", "==")
 		if g.chance(0.5) {
 			op += " on (a, b, c)"
@@ -756,8 +788,18 @@ func (g *Gen) Case(i int) *Case {
 		}
 	}
 	ranges := extractRanges(c.Query)
-	g.dataset(c, ranges, strings.Contains(c.Query, "h_bucket"))
+	g.nanRate = 0
+	if (strings.Contains(c.Query, "topk") || strings.Contains(c.Query, "bottomk")) && g.chance(0.4) {
+		g.nanRate = 0.2
+	}
+	if g.prof == "kagg" {
+		g.nanRate = g.pickF(0.1, 0.25, 0.4)
+	}
+	g.dataset(c, ranges, strings.Contains(c.Query, "_bucket"))
+	g.nanRate = 0
 	c.Procs = int(g.pickI(2, 4, 8, 16, 1, 6))
+	// the optimizers must not change anything: run a share of the cases with them
+	c.Opt = g.pick("none", "none", "default", "default", "all")
 	return c
 }
 
